@@ -754,8 +754,8 @@ def step : Obj → Op → Obj × Result
       match o.metaAt f with
       | none => (.region o, .err .attributeError)
       | some m =>
-          let r := metaStep m op
-          (.region (o.set f r.1.toVal), r.2)       -- in-place mutation: no descriptor involved
+          let r := metaStep m op               -- in-place mutation: no descriptor involved
+          (.region (if r.1 = m then o else o.set f r.1.toVal), r.2)
   | .metaObj m, .metaOp none op => let r := metaStep m op; (.metaObj r.1, r.2)
   | .rlist l, .listOp op => let r := listStep l op; (.rlist r.1, r.2)
   | o, _ => (o, .err .attributeError)             -- the object has no such method
